@@ -11,7 +11,8 @@ EXPL = ("R07.1 the four NameStyle implementations are read as definitions generi
         "table: in the MIR of Concatenated::MAYBE_VAL every switch arm k evaluates ConcatenatedLen<S,T,k> with the same k, arms are "
         "contiguous from 0 to M, HAVE_VAL's bound equals M, LEN = S::LEN + T::LEN, extend is S then T, const_str_value reads MAYBE_VAL "
         "only under HAVE_VAL. W07 for every total length 0..=100 (several splits), beyond the threshold and for nested chains the "
-        "compiler's constant evaluator confirms MAYBE_VAL / HAVE_VAL / LEN against literal expectations. R07.2 (on the proc macro's own "
+        "compiler's constant evaluator confirms MAYBE_VAL / HAVE_VAL / LEN against literal expectations. R07.5 every per-style name closure of the macro is style-uniform (no branch on the style it is "
+        "asked for); R07.2 (on the proc macro's own "
         "MIR) the generator pairs each style's identifier with the name computed for the same style and interpolates the four "
         "identifiers in the order of the trait's GAT parameters; R07.4 the macro's style table: each NameStyle arm calls the matching "
         "inflector function, snake/kebab prefixes get their separator, an explicit `name` wins over inflection. Not decided (and not "
@@ -215,6 +216,46 @@ def run(ctx):
                     reach = b.reachable(some_t)
                     okp = not any(x.bb in reach for x in ap if x.name != "name")
         ctx.check(okp, "R07.4", fnkey(b) + "#explicit-name-wins", loc(b), "an explicit `name = ...` override is inflected / prefixed like a derived name")
+    # ------------------------------------------------------------------ R07.5 per-style name closures treat every style alike
+    # every closure the macro hands out as "name for style s" (a closure taking a NameStyle) computes the name by applying s to inputs
+    # that do not depend on s: no branch on the style parameter inside the closure (a special case for one style makes the written name
+    # and the sample-group name of the same item diverge for that style)
+    nsc = 0
+    for pb in F.all_bodies(MAC):
+        for c in pb.calls():
+            for cb in closure_args(F, c):
+                if cb.arg_count < 2 or not cb.locals[2]["ty"].endswith("inflect::NameStyle"):
+                    continue
+                nsc += 1
+                prc = Prov(cb)
+                dep = []
+                for i in cb.live_blocks():
+                    t = cb.term(i)
+                    if t["k"] != "switch":
+                        continue
+                    o = set(prc.operand(t["discr"]))
+                    # look through comparison calls (PartialEq::eq / ne / matches!) for the style parameter
+                    work, seen_ = list(o), set()
+                    hit = False
+                    while work:
+                        x = work.pop()
+                        if x in seen_:
+                            continue
+                        seen_.add(x)
+                        if x[0] == "arg" and x[1] == 2:
+                            hit = True
+                        if x[0] in ("call", "callf"):
+                            tt = cb.term(x[1])
+                            if (tt.get("callee") or {}).get("name") in ("eq", "ne", "cmp", "partial_cmp"):
+                                for a in tt.get("args", []):
+                                    work.extend(prc.operand(a))
+                    if hit:
+                        dep.append(i)
+                ctx.check(not dep, "R07.5", fnkey(cb) + "#style-uniform", loc(cb, dep[0] if dep else None),
+                          "a per-style name closure branches on the style it is asked for (bb%s): the name for that one style is computed differently "
+                          "from the others, so the same item can be written under one name and sampled/grouped under another" % dep,
+                          "no branch on the style parameter")
+    ctx.floor("R07.5", "per-style name closures in the macro", nsc, 4)
     # ------------------------------------------------------------------ R07.2 generator <-> trait positional agreement
     # the generator of the per-field Inflect type: the body that builds four ConstStr items through one local helper
     def _const_str_callee(x):
